@@ -259,9 +259,9 @@ theorem takeWhile_sep (p : Char → Bool) (sep : Char) (hs : p sep = false) :
     obtain ⟨i1, i2⟩ := takeWhile_sep p sep hs cs rest (fun d hd => h d (by simp [hd]))
     simp [hc, i1, i2]
 
-def keyOK (k : Str) : Prop := k ≠ [] ∧ ∀ c ∈ k, c ≠ ' ' ∧ c ≠ '['
+def keyOK (k : Str) : Prop := k ≠ [] ∧ ∀ c ∈ k, c ≠ ' ' ∧ c ≠ '[' ∧ c ≠ '\n'
 
-def nameOK (n : Str) : Prop := n ≠ [] ∧ ∀ c ∈ n, c ≠ ']'
+def nameOK (n : Str) : Prop := n ≠ [] ∧ ∀ c ∈ n, c ≠ ']' ∧ c ≠ '\n'
 
 def entryOK (e : Entry) : Prop := keyOK e.key ∧ valOK e.val
 
@@ -301,7 +301,7 @@ theorem parseLine_entry (ind : Str) (e : Entry) (hind : ∀ x ∈ ind, x = ' ') 
     rw [dropSpaces_indent ind c _ hind hc.1]
     split
     · rename_i heq; cases heq
-    · rename_i r heq; simp only [cons.injEq] at heq; exact absurd heq.1 hc.2
+    · rename_i r heq; simp only [cons.injEq] at heq; exact absurd heq.1 hc.2.1
     · rename_i s h1 h2
       simp only [cons_append] at hp
       rw [hp]; rfl
@@ -313,7 +313,7 @@ theorem parseLine_header (n : Str) (h : nameOK n) :
     parseLine ('[' :: (n ++ [']'])) = some (.header n) := by
   obtain ⟨hne, hn⟩ := h
   obtain ⟨t1, t2⟩ := takeWhile_sep (fun c => decide (c ≠ ']')) ']' (by decide) n []
-    (fun c hc => by simpa using hn c hc)
+    (fun c hc => by simpa using (hn c hc).1)
   unfold parseLine
   have : dropSpaces ('[' :: (n ++ [']'])) = '[' :: (n ++ [']']) := by
     unfold dropSpaces
@@ -353,11 +353,11 @@ theorem parseLines_table (rest : List Str) (top : List Entry) (tabs : List (Str 
     (t : Str × List Entry) (h : tableOK' t) :
     parseLines (renderTable t ++ rest) ⟨top, tabs⟩ = parseLines rest ⟨top, tabs ++ [t]⟩ := by
   obtain ⟨hn, he⟩ := h
-  simp only [renderTable, cons_append, append_assoc, parseLines]
+  simp only [renderTable, cons_append, parseLines, parseLine_blank, addLine]
   rw [parseLine_header t.1 hn]
-  simp only [addLine]
+  simp only
   rw [parseLines_entries_tab _ top tabs t.1 t.2 [] he]
-  simp only [parseLines, parseLine_blank, addLine, nil_append]
+  simp only [nil_append]
 
 def docOK (d : Doc) : Prop := (∀ e ∈ d.top, entryOK e) ∧ ∀ t ∈ d.tables, tableOK' t
 
@@ -374,8 +374,8 @@ theorem parseLines_tables (top : List Entry) : ∀ (ts tabs : List (Str × List 
 theorem parseDoc_renderDoc (d : Doc) (h : docOK d) : parseDoc (renderDoc d) = some d := by
   obtain ⟨h1, h2⟩ := h
   unfold parseDoc renderDoc
-  rw [append_assoc, parseLines_entries_top _ d.top [] h1]
-  simp only [nil_append, singleton_append, parseLines, parseLine_blank, addLine]
+  rw [parseLines_entries_top _ d.top [] h1]
+  simp only [nil_append]
   rw [parseLines_tables d.top d.tables [] h2]
   simp
 
@@ -395,5 +395,145 @@ theorem splitLines_joinLines : ∀ (ls : List Str), (∀ l ∈ ls, ∀ c ∈ l, 
       have hc : c ≠ '\n' := hl c (by simp)
       have := ihc (fun d hd => hl d (by simp [hd]))
       simp only [cons_append, splitLines, hc, if_false, this]
+
+/-! ### rendered lines contain no raw LF -/
+
+def noLF (s : Str) : Prop := ∀ c ∈ s, c ≠ '\n'
+
+theorem hexDigit_ne_lf : ∀ n, n < 16 → hexDigit n ≠ '\n' := by decide
+
+theorem escChar_noLF (c : Char) : noLF (escChar c) := by
+  unfold escChar
+  intro x hx
+  split at hx
+  · simp at hx; rcases hx with rfl | rfl <;> decide
+  split at hx
+  · simp at hx; rcases hx with rfl | rfl <;> decide
+  split at hx
+  · simp at hx; rcases hx with rfl | rfl <;> decide
+  split at hx
+  · simp at hx; rcases hx with rfl | rfl <;> decide
+  split at hx
+  · simp at hx; rcases hx with rfl | rfl <;> decide
+  split at hx
+  · simp at hx; rcases hx with rfl | rfl <;> decide
+  split at hx
+  · simp at hx; rcases hx with rfl | rfl <;> decide
+  rename_i h1 h2 h3 h4 h5 h6 h7
+  simp only at hx
+  split at hx
+  · rename_i hn
+    simp only [mem_cons, not_mem_nil, or_false] at hx
+    rcases hx with rfl | rfl | rfl | rfl | rfl | rfl
+    · decide
+    · decide
+    · decide
+    · decide
+    · exact hexDigit_ne_lf _ (by omega)
+    · exact hexDigit_ne_lf _ (by omega)
+  · simp only [mem_singleton] at hx
+    subst hx; exact h3
+
+theorem escape_noLF : ∀ s : Str, noLF (escape s)
+  | [] => by intro c hc; cases hc
+  | c :: cs => by
+    intro x hx
+    simp only [escape, mem_append] at hx
+    rcases hx with hx | hx
+    · exact escChar_noLF c x hx
+    · exact escape_noLF cs x hx
+
+theorem renderStrs_noLF : ∀ xs : List Str, noLF (renderStrs xs)
+  | [] => by intro c hc; cases hc
+  | [x] => by
+    intro c hc
+    simp only [renderStrs, mem_cons, mem_append, not_mem_nil, or_false] at hc
+    rcases hc with rfl | hc | rfl
+    · decide
+    · exact escape_noLF x c hc
+    · decide
+  | x :: y :: r => by
+    intro c hc
+    simp only [renderStrs, mem_cons, mem_append] at hc
+    rcases hc with rfl | hc | rfl | rfl | hc
+    · decide
+    · exact escape_noLF x c hc
+    · decide
+    · decide
+    · exact renderStrs_noLF (y :: r) c hc
+
+theorem digits_noLF (n : Nat) : noLF (Nat.toDigits 10 n) := by
+  intro c hc e
+  subst e
+  have := Nat.isDigit_of_mem_toDigits (b := 10) (by decide) (by decide) hc
+  revert this; decide
+
+theorem renderVal_noLF (v : TVal) (h : valOK v) : noLF (renderVal v) := by
+  cases v with
+  | str s =>
+    intro c hc
+    simp only [renderVal, mem_cons, mem_append, not_mem_nil, or_false] at hc
+    rcases hc with rfl | hc | rfl
+    · decide
+    · exact escape_noLF s c hc
+    · decide
+  | int n =>
+    intro c hc
+    simp only [renderVal, renderInt] at hc
+    split at hc
+    · simp only [mem_cons] at hc
+      rcases hc with rfl | hc
+      · decide
+      · exact digits_noLF _ c hc
+    · exact digits_noLF _ c hc
+  | bool b => cases b <;> (intro c hc; simp [renderVal] at hc; rcases hc with rfl | rfl | rfl | rfl | rfl <;> decide)
+  | float t =>
+    intro c hc e
+    subst e
+    have h' : isFloatTok t = true := h
+    simp only [isFloatTok, Bool.and_eq_true, all_eq_true] at h'
+    have := h'.2 _ hc
+    revert this; decide
+  | strs xs =>
+    intro c hc
+    simp only [renderVal, mem_cons, mem_append, not_mem_nil, or_false] at hc
+    rcases hc with rfl | hc | rfl
+    · decide
+    · exact renderStrs_noLF xs c hc
+    · decide
+
+theorem renderEntry_noLF (ind : Str) (e : Entry) (hind : ∀ x ∈ ind, x = ' ') (h : entryOK e) :
+    noLF (renderEntry ind e) := by
+  intro c hc
+  simp only [renderEntry, mem_append, mem_cons] at hc
+  rcases hc with hc | hc | rfl | rfl | rfl | hc
+  · rw [hind c hc]; decide
+  · exact (h.1.2 c hc).2.2
+  · decide
+  · decide
+  · decide
+  · exact renderVal_noLF e.val h.2 c hc
+
+theorem renderDoc_noLF (d : Doc) (h : docOK d) : ∀ l ∈ renderDoc d, noLF l := by
+  intro l hl
+  simp only [renderDoc, mem_append, mem_map, mem_flatten] at hl
+  rcases hl with ⟨e, he, rfl⟩ | ⟨ls, ⟨t, ht, rfl⟩, hl⟩
+  · exact renderEntry_noLF [] e (by simp) (h.1 e he)
+  · simp only [renderTable, mem_cons, mem_map] at hl
+    rcases hl with rfl | rfl | ⟨e, he, rfl⟩
+    · intro c hc; cases hc
+    · intro c hc
+      simp only [mem_cons, mem_append, not_mem_nil, or_false] at hc
+      rcases hc with rfl | hc | rfl
+      · decide
+      · exact ((h.2 t ht).1.2 c hc).2
+      · decide
+    · exact renderEntry_noLF [' ', ' '] e (by simp) ((h.2 t ht).2 e he)
+
+/-- Text level: render to one string, split at LF, parse. -/
+theorem parseText_renderText (d : Doc) (h : docOK d) :
+    parseDoc (splitLines (joinLines (renderDoc d))) = some d := by
+  rw [splitLines_joinLines _ (renderDoc_noLF d h)]
+  exact parseDoc_renderDoc d h
 
 end PV.C31
